@@ -1,5 +1,7 @@
 import AC.Drv.C02
 import AC.Drv.C09
+import AC.Drv.C10
+import AC.Drv.C11
 open AC.Drv
 
 def dispatch (line : String) : String :=
@@ -9,6 +11,8 @@ def dispatch (line : String) : String :=
     let r := match op with
       | "c02" => handleC02 f
       | "c09" => handleC09 f
+      | "c10" => handleC10 f
+      | "c11" => handleC11 f
       | _ => bad s!"unknown-op:{op}"
     r.render
 
